@@ -124,6 +124,7 @@ pub(crate) const K_LEAF_BACKING: u8 = 22; // do_read_backing
 pub(crate) const K_LEAF_COMPRESSED: u8 = 23; // do_read_compressed
 pub(crate) const K_LEAF_COW: u8 = 24; // do_write_cow
 pub(crate) const K_CLEARNEW: u8 = 25; // clear_new_cluster(cluster number)
+pub(crate) const K_FLUSH_REFCOUNT: u8 = 26; // flush_refcount()
 pub(crate) const K_TRYALLOC: u8 = 14; // try_alloc_from_rb_slice (off,len = granted run; len 0 = None)
 
 const NOREC: Rec = Rec { kind: K_NONE, entry: 0, off: 0, len: 0, buf_start: 0, flags: 0 };
@@ -531,6 +532,29 @@ impl KEnv {
     }
     pub fn k_clear_new_cluster(&self, key: u64) {
         self.rec(Rec { kind: K_CLEARNEW, off: key, ..NOREC });
+    }
+    /// allocate one cluster and map it (what alloc_and_map_cluster does, decided separately by
+    /// c03_single_write_mapping), recorded
+    pub fn k_alloc_and_map_cluster_rec(&self, split: &crate::meta::SplitGuestOffset, l2_table: &mut RefMut<'_, L2Table>) -> KResult<Mapping> {
+        self.rec(Rec { kind: K_ALLOC, off: self.alloc_off, len: 1, ..NOREC });
+        let _ = l2_table.map_cluster(split.l2_slice_index(&self.info), self.alloc_off);
+        Ok(l2_table.get_mapping(&self.info, split))
+    }
+    pub fn k_do_write_data_file_s(&self, virt_off: u64, m: &Mapping, cow: Option<&Mapping>, buf: &[u8]) -> Qcow2Result<()> {
+        self.rec(Rec { kind: K_LEAF_DATA, entry: m.cluster_offset.unwrap_or(u64::MAX), off: virt_off, len: buf.len(),
+                       flags: cow.is_some() as u32, ..NOREC });
+        if self.fail_write.get() {
+            return Err(crate::error::Qcow2Error::from_desc(String::new()));
+        }
+        Ok(())
+    }
+    pub fn k_write_at_for_cow(&self, buf: &[u8], off: u64) -> Qcow2Result<()> {
+        self.rec(Rec { kind: K_WRITE, off, len: buf.len(), ..NOREC });
+        Ok(())
+    }
+    pub fn k_flush_refcount(&self) -> KResult<()> {
+        self.rec(Rec { kind: K_FLUSH_REFCOUNT, ..NOREC });
+        Ok(())
     }
     /// the backend's fallocate: fails or succeeds (environment decides)
     pub fn k_file_fallocate(&self, off: u64, len: usize, flags: u32) -> KResult<()> {
